@@ -449,7 +449,17 @@ class Engine:
 
     def cdiv(self, l, r, st):
         """C integer division (truncation); z3 '/' on Int is floor for positive divisors"""
-        if self.entails_int(st, z3.And(l >= 0, r > 0)): return l / r
+        if self.entails_int(st, z3.And(l >= 0, r > 0)):
+            if z3.is_int_value(r): return l / r
+            # symbolic divisor: quotient and remainder by their defining equation (keeps the query out of z3's div axioms)
+            key = (l.get_id(), r.get_id())
+            self._divs = getattr(self, '_divs', {})
+            if key in self._divs and self._divs[key][0].eq(l) and self._divs[key][1].eq(r):
+                return self._divs[key][2]
+            q = fresh('quot', z3.IntSort()); m = fresh('rem', z3.IntSort())
+            st.assume(z3.And(l == r * q + m, m >= 0, m < r, q >= 0, q <= l))
+            self._divs[key] = (l, r, q)
+            return q
         return z3.If(z3.And(l >= 0, r > 0), l / r,
                      z3.If(z3.And(l < 0, r > 0), -((-l) / r),
                            z3.If(z3.And(l >= 0, r < 0), -(l / (-r)), (-l) / (-r))))
@@ -559,6 +569,13 @@ class Engine:
             st.assume(z3.Implies(x >= 0, z3.And(r >= 0, r * r == x))); self.axiom_instances += 1
         elif name == 'exp':
             st.assume(r > 0); self.axiom_instances += 1
+        elif name == 'log':
+            ex = self.uf('exp', z3.RealSort(), z3.RealSort())
+            st.assume(z3.Implies(x > 0, ex(r) == x)); self.axiom_instances += 1
+            if z3.is_app(x) and x.decl().kind() == z3.Z3_OP_DIV:
+                a_, b_ = x.arg(0), x.arg(1)
+                st.assume(z3.Implies(z3.And(a_ > 0, b_ > 0), r == f(a_) - f(b_))); self.axiom_instances += 1
+                st.assume(z3.Implies(a_ > 0, ex(f(a_)) == a_)); st.assume(z3.Implies(b_ > 0, ex(f(b_)) == b_))
         elif name in ('sin', 'cos'):
             s = self.uf('sin', z3.RealSort(), z3.RealSort())(x); c = self.uf('cos', z3.RealSort(), z3.RealSort())(x)
             st.assume(s * s + c * c == 1); self.axiom_instances += 1
@@ -610,6 +627,35 @@ class Engine:
             it = self.ev(e.args[0], st); d = self.ev(e.args[1], st)
             if not isinstance(it, Iter): raise E2Error('iterator arithmetic on non-iterator')
             return Iter(it.base, it.off + d if fn == 'iter+' else it.off - d)
+        if fn == 'std::is_sorted':
+            sq, lo, hi = self.iter_range(e.args[0], e.args[1], st)
+            r = fresh('is_sorted', z3.BoolSort())
+            w = fresh('unsorted_at', z3.IntSort())
+            st.assume(z3.Implies(z3.Not(r), z3.And(lo <= w, w + 1 < hi, z3.Select(sq.arr, w) > z3.Select(sq.arr, w + 1))))
+            st.assume(Quant('k', lo, hi - 1, (lambda kk, sq=sq: z3.Select(sq.arr, kk) <= z3.Select(sq.arr, kk + 1)), 'is_sorted', guard=r))
+            return r
+        if fn in ('std::upper_bound', 'std::lower_bound'):
+            sq, lo, hi = self.iter_range(e.args[0], e.args[1], st)
+            t = self.to_real(self.ev(e.args[2], st))
+            pos = fresh('ub', z3.IntSort())
+            st.assume(z3.And(lo <= pos, pos <= hi))
+            self.notes.append('%s modelled by its contract on a sorted range (C++ standard)' % fn)
+            if fn == 'std::upper_bound':
+                st.assume(Quant('k', lo, pos, (lambda kk, sq=sq, t=t: z3.Select(sq.arr, kk) <= t), 'upper_bound: elements before the result are <= value'))
+                st.assume(Quant('k', pos, hi, (lambda kk, sq=sq, t=t: z3.Select(sq.arr, kk) > t), 'upper_bound: elements from the result on are > value'))
+            else:
+                st.assume(Quant('k', lo, pos, (lambda kk, sq=sq, t=t: z3.Select(sq.arr, kk) < t), 'lower_bound'))
+                st.assume(Quant('k', pos, hi, (lambda kk, sq=sq, t=t: z3.Select(sq.arr, kk) >= t), 'lower_bound'))
+            ia = self.ev(e.args[0], st)
+            return Iter(ia.base, pos)
+        if fn == 'std::distance':
+            a = self.ev(e.args[0], st); b = self.ev(e.args[1], st)
+            if not isinstance(a, Iter) or not isinstance(b, Iter): raise E2Error('distance of non-iterators')
+            return b.off - a.off
+        if fn in ('iter==', 'iter!='):
+            a = self.ev(e.args[0], st); b = self.ev(e.args[1], st)
+            if not isinstance(a, Iter) or not isinstance(b, Iter): raise E2Error('iterator comparison of non-iterators')
+            return (a.off == b.off) if fn == 'iter==' else (a.off != b.off)
         if fn == 'str.eq':
             a = self.ev(e.args[0], st); b = self.ev(e.args[1], st)
             if a.v is not None and b.v is not None: return z3.BoolVal(a.v == b.v)
@@ -772,7 +818,9 @@ class Engine:
             if t == 'int': sorts.append(z3.IntSort()); a.append(v)
             elif t == 'real': sorts.append(z3.RealSort()); a.append(self.to_real(v))
             elif t == 'seq': sorts.append(v.arr.sort()); a.append(v.arr)
-            elif t == 'seq2': sorts.append(v.arr.sort()); a.append(v.arr)
+            elif t == 'seq2':
+                sorts.append(v.arr.sort()); a.append(v.arr)
+                sorts.append(v.lens.sort()); a.append(v.lens)
             else: raise E2Error('spec function parameter type %s' % t)
         rs = {'int': z3.IntSort(), 'real': z3.RealSort(), 'bool': z3.BoolSort()}[sf.rtype]
         f = self.uf('spec_' + n, *(sorts + [rs]))
@@ -1412,6 +1460,18 @@ class Verifier(Engine):
                     st.assume(Quant('k', z3.IntVal(0), b.n - 1, (lambda k, nb=nb, b=b, pos=pos: z3.And(z3.Select(nb.arr, k) == z3.Select(b.arr, z3.If(k < pos, k, k + 1)), z3.Select(nb.lens, k) == z3.Select(b.lens, z3.If(k < pos, k, k + 1)))), 'erase'))
                 else:
                     st.assume(Quant('k', z3.IntVal(0), b.n - 1, (lambda k, nb=nb, b=b, pos=pos: z3.Select(nb.arr, k) == z3.Select(b.arr, z3.If(k < pos, k, k + 1))), 'erase'))
+            elif fn == 'seq.insert' and len(c.args) == 4:
+                pos = self.ev(c.args[1], st)
+                if not isinstance(pos, Iter) or IR.pp_expr(pos.base) != IR.pp_expr(tgt):
+                    raise E2Error('insert position is not an iterator of the target')
+                self.oblige(st, pos.off == b.n, 'model', 'vector::insert is modelled for insertion at end() only')
+                src, lo, hi = self.iter_range(c.args[2], c.args[3], st)
+                self.oblige(st, z3.And(0 <= lo, lo <= hi, hi <= src.n), 'bounds', 'inserted range lies within its sequence')
+                if b.lens is not None: raise E2Error('insert into nested sequence')
+                nb = self.fresh_val('seq<%s>' % b.et, 'inserted', st)
+                st.assume(nb.n == b.n + (hi - lo))
+                st.assume(Quant('k', z3.IntVal(0), b.n, (lambda k, nb=nb, b=b: z3.Select(nb.arr, k) == z3.Select(b.arr, k)), 'insert keeps the old elements'))
+                st.assume(Quant('k', z3.IntVal(0), hi - lo, (lambda k, nb=nb, b=b, src=src, lo=lo: z3.Select(nb.arr, b.n + k) == z3.Select(src.arr, lo + k)), 'insert appends the range'))
             elif fn == 'seq.reserve':
                 nb = b
             else:
